@@ -312,7 +312,7 @@ class CountingMeta(type):
     log = []
 
     def __call__(cls, *a, **k):
-        CountingMeta.log.append(cls._verif_cid)
+        CountingMeta.log.append(("construct", cls._verif_cid))
         return super().__call__(*a, **k)
 
 
@@ -361,6 +361,8 @@ class World(object):
 
     def _build_class(self, d):
         cid, kind = d["cid"], d["kind"]
+        if d.get("external"):
+            return               # lives in a file on sys.path (canary modules)
         if kind == "decimal":
             cls = decimal.Decimal
         elif kind == "enum":
@@ -478,15 +480,15 @@ class World(object):
             return {k: self.abstract(x) for k, x in o.items()}
         if t is decimal.Decimal:
             return Dec(str(o))
-        if t in self.cid_of:
-            cid = self.cid_of[t]
+        if t in self.cid_of or getattr(t, "_verif_cid", None) in self.by_cid:
+            cid = self.cid_of.get(t) or t._verif_cid
             if isinstance(o, enum.Enum):
                 return EnumV(cid, self.abstract(o.value))
             fields = []
             if hasattr(o, "__dict__"):
                 fields += [(k, self.abstract(x)) for k, x in o.__dict__.items()]
             seen = set(k for k, _ in fields)
-            for s in self.real_fields(cid):
+            for s in (self.real_fields(cid) if self.by_cid[cid]["kind"] == "slot" else ()):
                 if s not in seen and hasattr(o, s):
                     seen.add(s)
                     fields.append((s, self.abstract(getattr(o, s))))
